@@ -5,3 +5,4 @@ pub mod unreal2;
 pub mod minecraft;
 pub mod misc;
 pub mod eco;
+pub mod master;
